@@ -39,7 +39,9 @@ def gen_scenarios(seed, tier):
     rng = random.Random(seed * 15485863 + 6)
     n = 2400 if tier == "quick" else 40000
     for i in range(n):
-        if i % 4 == 3:
+        if i % 8 == 5:
+            yield gen_foreign_race(rng, i)
+        elif i % 4 == 3:
             yield gen_running_cancel(rng, i)
         elif i % 2 == 0:
             d = sc.gen_stack(rng, i, kinds=["retry"], max_layers=1, ops=("submit", "cancel", "cancel", "sleep", "result"),
@@ -49,6 +51,28 @@ def gen_scenarios(seed, tier):
         else:
             d = sc.gen_stack(rng, i, ops=("submit", "cancel", "cancel", "sleep", "result", "addcb"), tail=(40.0,), shutdown_p=0.0)
         yield d
+
+
+def gen_foreign_race(rng, i):
+    """the attempt's delegate future is still queued in the pool (its only worker is busy with a gated job) when, at the same
+    virtual instant, a client cancels the retry future and somebody else cancels the delegate future directly: the delegate's
+    done-callback (pop the job, `_me_delegate_cancelled`) races every step of `cancel()`"""
+    pol = {"max_attempts": 3, "sleep": rng.choice([0.0, 1.0]), "exponent": 1.0, "max_sleep": 5.0, "exception_base": ["E0"]}
+    c0 = [["submit", "kB", [[["waitev", "gB"], ["ret", 0]]]], ["submit", "k0", [[["ret", 1]]]], ["sleep", 0.5], ["cancel", "k0"]]
+    if rng.random() < 0.4:
+        c0.append(["cancel", "k0"])
+    c0 += [["sleep", 1.0], ["setev", "gB"]]
+    c1 = [["sleep", 0.5], ["dcancel", "k0"]]
+    clients = [c0, c1]
+    if rng.random() < 0.3:
+        clients.append([["sleep", 0.5], ["cancel", "k0"]])
+    d = dict(kind="stack", idx=i, base="simpool1", layers=[["retry", pol]], clients=clients, tail=30.0,
+             seed=rng.randrange(1 << 30), replay_model="retry", family="foreign-race")
+    from props.common import schedule_modes
+    d.update(schedule_modes(rng))
+    if rng.random() < 0.5:
+        d.update(mode="hold", p_switch=rng.choice([0.0, 0.02, 0.1]), trace_lines=True)
+    return d
 
 
 def gen_running_cancel(rng, i):
